@@ -116,6 +116,7 @@ def run(ck, extra_overlay=None):
     prop = "C04"
     files, g = close.model_and_behaviours(ck, prop)
     ov = dict(SHIM)
+    ov.update(close.channel_common.fixture_overlay(ck))
     ov.update(extra_overlay or {})
     res = ck.go_test("./contractcourt/", "^TestVerifC04Justice$", ["contractcourt/c04_justice_test.go"],
                      env={"VERIF_SCHED": os.path.dirname(files[0]), "VERIF_TYPES": close.ALL_TYPES, "VERIF_THAW": 600},
